@@ -7,7 +7,7 @@ from .oracle import Finding
 VERIF = build.VERIF
 REPLAYS = os.environ.get("VERIF_REPLAY_DIR") or os.path.join(VERIF, "replays")
 EVIDENCE = os.environ.get("VERIF_EVIDENCE_DIR") or os.path.join(VERIF, "evidence")
-KNOWN = os.path.join(VERIF, "known_findings.json")
+KNOWN = os.environ.get("VERIF_KNOWN") or os.path.join(VERIF, "known_findings.json")
 
 REAL_STUB = {
     "real": ["xcp binary built from /repo working tree (src/, libxcp, libfs and all dependencies, glibc)",
